@@ -90,7 +90,7 @@ Proof.
 Qed.
 Lemma cl_flags s me p c s1 p' : cl_step s me p c = Some (s1, p') -> fix14 s1 = fix14 s /\ fix15 s1 = fix15 s.
 Proof.
-  unfold cl_step. intros X. destruct p, c; try discriminate X; destr X; injection X as <- _; simpl; auto.
+  unfold cl_step, close_unstarted. intros X. destruct p, c; try discriminate X; destr X; injection X as <- _; simpl; auto.
 Qed.
 Lemma flags_step s l s' evs : step s l = Some (s', evs) -> fix14 s' = fix14 s /\ fix15 s' = fix15 s.
 Proof.
@@ -107,7 +107,7 @@ Proof.
   destruct (IH s') as [A B]. destruct (flags_step _ _ _ _ X) as [C D]. split; congruence.
 Qed.
 
-Definition all_past_done (s : rstate) : Prop := forall h, h < nexth s -> pend (h_loop (hs s h)) = false.
+Definition all_past_done (s : rstate) : Prop := forall h, h < nexth s -> pendh (hs s h) = false.
 (** every handler was started and its subscription follows the (cancelled) Run context *)
 Definition all_follow_ctx (s : rstate) : Prop :=
   forall h, h < nexth s -> h_loop (hs s h) <> LNone /\ h_hon (hs s h) = true /\ h_par (hs s h) <> PBg.
@@ -170,22 +170,22 @@ Proof.
   - destruct (ND ok eq_refl).
 Qed.
 
-Theorem self_close_not_stuck ls :
-  let s := run (rinit true true true) ls in
+Theorem self_close_not_stuck f16 ls :
+  let s := run (rinit true true true f16) ls in
   mainp s <> RNone -> (forall ok, mainp s <> RDone ok) ->
   (0 < nexth s /\ all_past_done s) \/ (cctx s = true /\ all_follow_ctx s) ->
   can_move s.
 Proof.
   intros s N0 ND Hyp.
-  destruct (run_inv ls (rinit true true true) (sinv_init _ _ _) (winv_init _ _ _)) as [I W]. fold s in I, W.
-  destruct (flags_run ls (rinit true true true)) as [F14 F15]. fold s in F14, F15. simpl in F14, F15.
+  destruct (run_inv ls (rinit true true true f16) (sinv_init _ _ _ _) (winv_init _ _ _ _)) as [I W]. fold s in I, W.
+  destruct (flags_run ls (rinit true true true f16)) as [F14 F15]. fold s in F14, F15. simpl in F14, F15.
   destruct Hyp as [[Hn A]|[C F]].
   - apply not_stuck_core; auto.
-  - destruct (forallb (fun h => negb (pend (h_loop (hs s h)))) (seq 0 (nexth s))) eqn:P.
+  - destruct (forallb (fun h => negb (pendh (hs s h))) (seq 0 (nexth s))) eqn:P.
     + apply not_stuck_core; auto. intros h Hh. rewrite forallb_seq in P. specialize (P h Hh).
       now apply negb_true_iff in P.
     + apply forallb_seq_false in P as (h & Hh & Pf). apply negb_false_iff in Pf.
-      destruct (F h Hh) as (L & Hon & Par).
+      destruct (F h Hh) as (L & Hon & Par). unfold pendh in Pf. apply andb_true_iff in Pf as [Pf _].
       destruct (h_loop (hs s h)) eqn:EL; try discriminate Pf; try congruence.
       * destruct (h_subOpen (hs s h)) eqn:SO.
         -- exists (LSubCtx h). split; [reflexivity|]. simpl. rewrite SO, Hon. unfold hctx_done, parent_done.
